@@ -74,6 +74,7 @@ def make_case(seed, i, force_end=None):
         subdir_file = "%s/%s/%s" % (tgt.dirname, sub, fn)
     state = pkg
     files0 = M.render_tree(state, "/w")
+    M.add_clutter(files0, rng.fork("clutter"))
     cur = dict(files0)
     edits, log = [], []
     n_edits = rng.randint(1, 6)
